@@ -43,7 +43,11 @@ def add_checks(run, rowsem, pat):
     for k, p in enumerate(paths):
         tag = f"add/{pat}/p{k}"
         if p.panic is not None:
-            run.inconclusive.append(f"{tag}: panic path {p.panic}")
+            # a path of add_point_gates that panics must be infeasible; a model is replayed on the
+            # real composer (same machinery as C07)
+            from checks.c07 import feas_obligation, panic_replay
+            feas_obligation(run, f"{tag}/panic-infeasible", ctx, p, {"panic": p.panic},
+                            replay=panic_replay(run, args, p))
             continue
         L = p.layout
         rows = list(rows_of(L))
